@@ -82,9 +82,12 @@ TEXTS = ['hello', 'a b', 'NGC 1234', 'x;y', 'a; b; c', ';', 'tag#1', '# leading 
          # '=' with blanks around it; characters that str.splitlines() treats as line boundaries but the DS9 line grammar
          # does not (form feed, vertical tab, FS/GS/RS, NEL, LS, PS); a tab
          'S/N = 5.2', 'a =b', 'a= b', 'page\x0cbreak', 'v\x0bt', 'fs\x1cgs\x1drs\x1eus\x1fend', 'nel\x85x', 'ls\u2028x', 'ps\u2029x',
-         'tab\tx', 'a b c}', 'x}y', '{x}', 'brace} and "quote"']
+         'tab\tx', 'a b c}', 'x}y', '{x}', 'brace} and "quote"',
+         # words of the format's own vocabulary inside free text
+         'sky background estimate', 'background', 'source', 'Background', 'select highlite', 'dash', 'fixed star', 'composite', 'image',
+         'exclude', 'physical', 'ruler', 'point=circle', 'edit move', 'line 1 1', 'delete', 'the background']
 NUMERIC_TEXTS = ['42', '007', '1e3', '3.14', 'nan', 'inf', '-5', '+7', ' 12 ', '1_000', 'Infinity', '0']
-TAGS = ['k = v', 'g\x0c1', 'x}y', 'a', 'group 1', 'src', 'bkg', 'Tag-3', 'x_y', 'A B C', '1', '2.5', 'α', 'a#b', 'k=v', 'Group 1', 'b']
+TAGS = ['k = v', 'g\x0c1', 'x}y', 'a', 'group 1', 'src', 'bkg', 'Tag-3', 'x_y', 'A B C', '1', '2.5', 'α', 'a#b', 'k=v', 'Group 1', 'b', 'background', 'source', 'sky background', 'select', 'dash', 'fixed']
 COLORS = ['red', 'green', 'blue', 'cyan', 'magenta', 'yellow', 'black', 'white', '#ff0000', '#0F0', '#12ab9F', 'Red', '#000000']
 FLAGS = ['select', 'highlite', 'fixed', 'edit', 'move', 'rotate', 'delete', 'source', 'background']
 DROPPED_META = [('label', 'my label'), ('comment', 'a comment'), ('name', 'n1'), ('type', 'ann'), ('frame', 'x'), ('label', 'L 2')]
@@ -163,7 +166,7 @@ def lat_v(rng, p):
 def coord_spec(rng, p, frame):
     if frame == 'image':
         return S.pix(pix_v(rng, p), pix_v(rng, p))
-    return S.sky(lon_v(rng, p), lat_v(rng, p), frame)
+    return S.held(S.sky(lon_v(rng, p), lat_v(rng, p), frame), rng)
 
 
 def coords_spec(rng, p, frame, n):
@@ -187,7 +190,7 @@ def coords_spec(rng, p, frame, n):
     else:
         lons = [lon_v(rng, p) for _ in range(n)]
         lats = [lat_v(rng, p) for _ in range(n)]
-    return S.sky(S.arr_spec(np.array(lons, dtype=float)), S.arr_spec(np.array(lats, dtype=float)), frame)
+    return S.held(S.sky(S.arr_spec(np.array(lons, dtype=float)), S.arr_spec(np.array(lats, dtype=float)), frame), rng)
 
 
 _UNIT_PER_DEG = {'deg': 1.0, 'arcmin': 60.0, 'arcsec': 3600.0, 'rad': math.pi / 180.0, 'mas': 3.6e6, 'hourangle': 1.0 / 15.0}
@@ -697,7 +700,14 @@ def compare_region(obs, orig, got, p, all_excluded):
     otag = [str(t) for t in (orig.meta.get('tag') or [])]
     gtag = got.meta.get('tag') or []
     obs.check(isinstance(gtag, (list, tuple)) and list(gtag) == otag, 'tags-changed', f'tags {otag!r} came back as {gtag!r}', 'tags')
-    # label: DS9 has no spelling for it - counted, not judged
+    # the DS9 property flags: what the region did not carry cannot come back from the text (e.g. out of a word in its label), and
+    # what it carried comes back with the same truth value
+    for k in FLAGS:
+        if k in got.meta and k not in orig.meta:
+            obs.violation('flag-from-nowhere', f'the region read back carries {k}={got.meta[k]!r}; the region written has no {k!r} entry '
+                          f'(text {ot!r}, tags {otag!r})')
+        elif k in got.meta:
+            obs.check(bool(got.meta[k]) == bool(orig.meta[k]), 'flag-changed', f'{k}={orig.meta[k]!r} came back as {got.meta[k]!r}', 'flags')
     if 'label' in orig.meta:
         if 'label' in got.meta:
             obs.check(got.meta['label'] == orig.meta['label'], 'label-changed',
